@@ -25,6 +25,10 @@ theorem prefix_tables_follow_convention :
 theorem coverage : 18 ≤ (tables.filter isPrefixTable).length ∧ 40 ≤ pairs.length := by decide +kernel
 
 
+/-- **prefix types survive parsing**: for every key type, every OutputPrefixType its parser accepts is
+    mapped to a variant whose serialisation has the same output-prefix bytes -/
+theorem parser_prefix_consistent : pairs.all (fun p => parserPrefixConsistent p.1 p.2) = true := by decide +kernel
+
 end TinkVerif.Gen.EnumTables
 
 section AxiomAudit
@@ -36,4 +40,5 @@ open TinkVerif.Gen.EnumTables
 #print axioms every_serializer_table_paired
 #print axioms prefix_tables_follow_convention
 #print axioms coverage
+#print axioms parser_prefix_consistent
 end AxiomAudit
